@@ -99,6 +99,8 @@ class Module:
             self.tree = ast.parse(src, filename=relpath)
         except SyntaxError as e:
             raise AnalysisError("cannot parse %s: %s" % (relpath, e))
+        from .normalise import normalise
+        self.tree = normalise(self.tree)
         for parent in ast.walk(self.tree):
             for child in ast.iter_child_nodes(parent):
                 child._parent = parent
